@@ -128,6 +128,9 @@ LIB = {
     # --- pandas
     'pandas.DataFrame': dict(special='pdctor'), 'pandas.Series': dict(special='pdctor'),
     'pandas.Index': A(0), 'pandas.concat': F(),
+    'itertools.product': C('all'), 'itertools.chain': C('all'), 'itertools.zip_longest': C('all'),
+    'itertools.islice': C(0), 'itertools.repeat': dict(ret=(), store_all=True, tag='list'),
+    'itertools.starmap': C('all'), 'itertools.accumulate': C('all'), 'functools.reduce': C('all'),
     # --- numba decorators are transparent; calling them is not expected
 }
 
@@ -226,6 +229,7 @@ class ClassInfo:
         self.methods = {}           # name -> FuncInfo
         self.attrs = {}             # class-level constants: name -> ast value
         self.slots_assigned = set()  # attribute names assigned through self in its own methods
+        self.dynamic_slots = False   # setattr(self, <computed name>, ...) somewhere
         self.record = False          # NamedTuple / dataclass / namedtuple: a record of its fields
         self.fields = []
 
@@ -301,6 +305,15 @@ class Program:
                     raise Unsupported(f"{c.cid}: base class {ast.unparse(b)}")
         self.subclasses = {cid: [d for d in self.classes.values() if c in d.mro()]
                            for cid, c in self.classes.items()}
+        for c in self.classes.values():
+            if any(k.dynamic_slots for k in c.mro()) and not c.is_record():
+                for k in c.mro():
+                    for fi in k.methods.values():
+                        for n in ast.walk(fi.node):
+                            if isinstance(n, ast.Attribute) and isinstance(n.value, ast.Name) \
+                                    and n.value.id == 'self' and c.find_attr(n.attr) is None \
+                                    and c.find_method(n.attr) is None:
+                                k.slots_assigned.add(n.attr)
 
     def load(self, m):
         src = open(os.path.join(self.repo, 'pyins', m + '.py')).read()
@@ -346,6 +359,14 @@ class Program:
                             if isinstance(n, ast.Attribute) and isinstance(n.ctx, ast.Store) \
                                     and isinstance(n.value, ast.Name) and n.value.id == 'self':
                                 ci.slots_assigned.add(n.attr)
+                            elif isinstance(n, ast.Call) and len(n.args) == 3 and (
+                                    (isinstance(n.func, ast.Name) and n.func.id == 'setattr') or
+                                    (isinstance(n.func, ast.Attribute) and n.func.attr == '__setattr__')) \
+                                    and isinstance(n.args[0], ast.Name) and n.args[0].id == 'self':
+                                if isinstance(n.args[1], ast.Constant) and isinstance(n.args[1].value, str):
+                                    ci.slots_assigned.add(n.args[1].value)
+                                else:
+                                    ci.dynamic_slots = True
                     elif isinstance(sub, ast.Assign) and all(isinstance(t, ast.Name) for t in sub.targets):
                         for t in sub.targets:
                             ci.attrs[t.id] = sub.value
@@ -608,6 +629,7 @@ class FT:
         self.explicit = params
         self.fnvals = {}
         self.elemtag = {}
+        self.gen_var = None
         self.ret_elemtags = []
         self.ret_tags = []
         self.inline_stack = [fi.fid]
@@ -766,7 +788,9 @@ class FT:
             return self.env[n]
         if n in self.globals or n not in self.locals:
             if n in self.nested:
-                self.bad(node, "function object used as a value")
+                v = self.fresh(n, 'const')
+                self.fnvals[v] = [('nested', self.nested[n])]
+                return v
             r = self.P.resolve_name(self.m, node)
             if r is None:
                 if n in BUILTIN_VALUES:
@@ -795,6 +819,10 @@ class FT:
                 if r[0] == 'lib':
                     if r[1] in LIB_CONSTS:
                         return self.fresh(attr, 'const')
+                    if r[1] in LIB and not LIB[r[1]].get('special'):
+                        v = self.fresh(attr, 'const')            # a classified library function as a value
+                        self.fnvals[v] = [('lib', r[1])]
+                        return v
                     self.bad(node, "library object used as a value (not classified)")
                 if r[0] == 'classattr':
                     ci = self.P.classes[r[1]]
@@ -824,6 +852,10 @@ class FT:
             if t:
                 self.tags[v] = t
             return v
+        if cls.is_record() and attr in cls.all_fields():
+            res = self.fresh('self.' + attr)                # a field of an (immutable) record
+            self.emit('Load', res, self.selfvar)
+            return res
         owner = cls.find_attr(attr)
         if owner is not None:
             return self.read_classattr(owner, attr)
@@ -836,9 +868,14 @@ class FT:
         t = self.tag(v)
         slots, cattrs, props = [], [], []
         known = isinstance(t, tuple) and t[0] == 'inst'
+        fields = False
         if known:
             ci = self.P.classes[t[1]]
             al = ci.all_slots()
+            if ci.is_record() and attr in ci.all_fields():
+                res = self.fresh('.' + attr)
+                self.emit('Load', res, v)
+                return res
             if attr in al:
                 slots.append(f"{al[attr].cid}.{attr}")
             elif ci.find_attr(attr) is not None:
@@ -852,7 +889,9 @@ class FT:
                 slots.append(f"{c.all_slots()[attr].cid}.{attr}")
             cattrs = self.P.classattr_candidates(attr)
             props = [f for f in self.P.method_candidates(attr) if f.kind == 'property']
-        lib_alias = attr in ATTR_ALIAS or attr in self.columns
+            fields = bool(self.P.field_candidates(attr))
+            cattrs = [c for c in cattrs if not (c.is_record() and attr in c.all_fields())]
+        lib_alias = attr in ATTR_ALIAS or attr in self.columns or fields
         lib_fresh = attr in ATTR_FRESH
         if known and (slots or cattrs or props):
             lib_alias = lib_fresh = False
@@ -984,6 +1023,28 @@ class FT:
     def ev_Starred(self, node):
         return self.ev(node.value)
 
+    def ev_NamedExpr(self, node):
+        v = self.ev(node.value)
+        self.bind_target(node.target, v)
+        return v
+
+    def gen_container(self):
+        if self.gen_var is None:
+            self.gen_var = self.fresh('generator', 'list')
+            self.emit('Assign', self.ret, self.gen_var)
+        return self.gen_var
+
+    def ev_Yield(self, node):
+        g = self.gen_container()
+        if node.value is not None:
+            self.emit('Store', g, self.ev(node.value))
+        return self.fresh('sent', 'const')
+
+    def ev_YieldFrom(self, node):
+        g = self.gen_container()
+        self.emit('Store', g, self.item_of(self.ev(node.value)))
+        return self.fresh('sent', 'const')
+
     def ev_Lambda(self, node, immediate=False):
         immediate = immediate or getattr(self, '_argdepth', 0) > 0
         a = node.args
@@ -1016,7 +1077,24 @@ class FT:
         reachable from `sources`; returns the variable of the result"""
         res = self.fresh('fncall')
         for e in fns:
-            if e[0] == 'lambda':
+            if e[0] == 'nested':
+                if args is None:
+                    self.bad(node, "nested function handed to a library")
+                self.emit('Assign', res, self.call_py(e[1], None, args, kws or {}, node))
+            elif e[0] == 'lib':
+                spec = LIB[e[1]]
+                USED.add('lib:' + e[1])
+                if args is None:
+                    if spec.get('mut') or 'nin' in spec or spec.get('ow'):
+                        self.bad(node, f"library function {e[1]} (may write an argument) handed to a library")
+                    t = self.fresh('libres', spec.get('tag'))
+                    if spec.get('ret') or spec.get('elems') or spec.get('load'):
+                        for sv in sources:
+                            self.emit('Reach', t, sv)
+                    self.emit('Assign', res, t)
+                else:
+                    self.emit('Assign', res, self.lib_call(e[1], spec, list(args), kws or {}, None, node))
+            elif e[0] == 'lambda':
                 _, ps, r = e
                 if args is not None:
                     if kws or len(args) > len(ps):
@@ -1118,6 +1196,15 @@ class FT:
                 if f.attr in b.methods:
                     return self.call_py(b.methods[f.attr], self.selfvar, args, kws, node)
             self.bad(node, "super() method not found")
+        if isinstance(f, ast.Attribute) and isinstance(f.value, ast.Name) and f.value.id == 'object' \
+                and 'object' not in self.env and f.attr == '__setattr__' and len(args) == 3 and not kws:
+            return self.dyn_setattr(node, args[0], node.args[1], args[2])
+        if isinstance(f, ast.Name) and f.id in ('setattr', 'getattr') and f.id not in self.env \
+                and self.P.resolve_name(self.m, f) is None and not kws and not starred:
+            if f.id == 'setattr' and len(args) == 3:
+                return self.dyn_setattr(node, args[0], node.args[1], args[2])
+            if f.id == 'getattr' and len(args) in (2, 3):
+                return self.dyn_getattr(node, args[0], node.args[0], node.args[1], args[2:] )
         if isinstance(f, ast.Name):
             n = f.id
             if n in self.env:
@@ -1176,6 +1263,52 @@ class FT:
             need_plain()
             return self.invoke_fn_values(self.fnvals[v], node, args, kws)
         self.bad(node, "call of a computed value")
+
+    def dyn_setattr(self, node, obj, name_node, val):
+        """setattr(obj, name, value) / object.__setattr__(obj, name, value)"""
+        if isinstance(name_node, ast.Constant) and isinstance(name_node.value, str):
+            tgt = ast.Attribute(value=node.args[0], attr=name_node.value, ctx=ast.Store(), lineno=node.lineno)
+            self.bind_target(tgt, val)
+        elif obj == self.selfvar and self.selfvar is not None:
+            cls = self.fi.cls
+            if cls.is_record():
+                self.emit('Mutate', obj)
+                self.emit('Store', obj, val)
+            for attr, (sname, root) in sorted(self.slotroot.items()):   # any slot may be the target
+                self.emit('StateWrite', sname, self.selfvar)
+                self.emit('Assign', root, val)
+                self.slot_writes.append((sname, val))
+        else:
+            for c in self.P.classes.values():
+                for attr, owner in sorted(c.all_slots().items()):
+                    self.emit('StateWrite', f"{owner.cid}.{attr}", obj)
+            self.emit('Mutate', obj)
+            self.emit('Store', obj, val)
+        return self.fresh('none', 'const')
+
+    def dyn_getattr(self, node, obj, obj_node, name_node, default):
+        if isinstance(name_node, ast.Constant) and isinstance(name_node.value, str):
+            res = self.ev(ast.Attribute(value=obj_node, attr=name_node.value, ctx=ast.Load(), lineno=node.lineno))
+        else:
+            res = self.fresh('getattr')
+            if obj == self.selfvar and self.selfvar is not None:
+                for attr, (sname, root) in sorted(self.slotroot.items()):
+                    self.emit('StateRead', sname, self.selfvar)
+                    self.emit('Assign', res, root)
+                for c in self.fi.cls.mro():
+                    for a in sorted(c.attrs):
+                        self.emit('Assign', res, self.read_classattr(c, a))
+                if self.fi.cls.is_record():
+                    self.emit('Load', res, obj)
+            else:
+                for c in self.P.classes.values():
+                    for attr, owner in sorted(c.all_slots().items()):
+                        self.emit('StateRead', f"{owner.cid}.{attr}", obj)
+                self.emit('Assign', res, obj)
+                self.emit('Load', res, obj)
+        for d in default:
+            self.emit('Assign', res, d)
+        return res
 
     def call_resolved(self, r, args, kws, node, need_plain):
         if r[0] == 'func':
@@ -1245,6 +1378,18 @@ class FT:
         return res
 
     def construct(self, ci, args, kws, node):
+        if ci.is_record() and ci.find_method('__init__') is None:
+            obj = self.fresh(ci.cid.split('.')[-1], ('inst', ci.cid))       # a record of its fields
+            for v in list(args) + [v for v, _ in kws.values()]:
+                self.emit('Store', obj, v)
+            for c in ci.mro():
+                for f, dflt in c.attrs.items():
+                    if f in c.fields and not is_immutable_default(dflt):
+                        self.emit('Store', obj, self.read_classattr(c, f))
+            post = ci.find_method('__post_init__')
+            if post is not None:
+                self.call_py(post, obj, [], {}, node)
+            return obj
         obj = self.fresh(ci.cid.split('.')[-1], ('inst', ci.cid))
         init = ci.find_method('__init__')
         if init is not None:
@@ -1264,9 +1409,6 @@ class FT:
             return False
         if fi.parent is not None:
             return True                                    # nested function: a closure
-        nm = fi.node.name
-        if not nm.startswith('_') or nm.startswith('__'):
-            return False
         if fi.cls is None:
             return True
         if self.fi.cls is None or fi.cls not in self.fi.cls.mro():
@@ -1303,13 +1445,17 @@ class FT:
             self.ret = res
             outer_tags, self.ret_tags = self.ret_tags, []
             outer_et, self.ret_elemtags = self.ret_elemtags, []
+            outer_gen, self.gen_var = self.gen_var, None
             alive = self.block(body)
+            is_gen, self.gen_var = self.gen_var is not None, outer_gen
             if alive is not False:
                 self.ret_tags.append('const')              # falls off the end: returns None
                 self.ret_elemtags.append(None)
             ts, ets = set(self.ret_tags), set(self.ret_elemtags)
             self.ret_tags, self.ret_elemtags = outer_tags, outer_et
-            if len(ts) == 1 and None not in ts:
+            if is_gen:
+                self.tags[res] = 'list'
+            elif len(ts) == 1 and None not in ts:
                 self.tags[res] = ts.pop()
                 if len(ets) == 1 and None not in ets:
                     self.elemtag[res] = ets.pop()
@@ -1510,7 +1656,11 @@ class FT:
         elif isinstance(t, ast.Starred):
             self.bind_target(t.value, v)
         elif isinstance(t, ast.Attribute):
-            if self.is_self(t.value):
+            if self.is_self(t.value) and t.attr not in self.slotroot and self.fi.cls.is_record() \
+                    and t.attr in self.fi.cls.all_fields():
+                self.emit('Mutate', self.selfvar)
+                self.emit('Store', self.selfvar, v)
+            elif self.is_self(t.value):
                 if t.attr not in self.slotroot:
                     self.bad(t, "assignment to an unknown slot")
                 sname, root = self.slotroot[t.attr]
@@ -1573,12 +1723,10 @@ class FT:
     def st_FunctionDef(self, s):
         if s.decorator_list:
             self.bad(s, "decorated nested function")
-        fi = FuncInfo(f"{self.fi.fid}.{s.name}", self.m, s, parent=self.fi)
+        fi = FuncInfo(f"{self.fi.fid}.{s.name}", self.m, s, cls=self.fi.cls, kind='function', parent=self.fi)
         for n in ast.walk(s):
-            if isinstance(n, ast.Name) and isinstance(n.ctx, ast.Load) and n.id in self.locals \
-                    and n.id not in fi.params and n.id not in assigned_names(s.body) \
-                    and self.bind_count.get(n.id, 0) > 1:
-                self.bad(n, "nested function reads a variable of the enclosing function that is assigned more than once")
+            if isinstance(n, ast.Nonlocal):
+                self.bad(n, "nested function rebinding a variable of the enclosing function")
         self.nested[s.name] = fi
 
     def st_Return(self, s):
@@ -1667,6 +1815,75 @@ class FT:
                     self.fnvals[p] = fns
                 out[n] = p
         return out
+
+    def st_Match(self, s):
+        subj = self.ev(s.subject)
+        base = dict(self.env)
+        envs, irrefutable = [], False
+        for case in s.cases:
+            self.env = dict(base)
+            self.bind_pattern(case.pattern, subj)
+            if case.guard is not None:
+                self.ev(case.guard)
+            alive = self.block(case.body)
+            envs.append(dict(self.env) if alive else None)
+            p = case.pattern
+            if case.guard is None and isinstance(p, ast.MatchAs) and p.pattern is None:
+                irrefutable = True
+        if not irrefutable:
+            envs.append(base)
+        m = self.merge(envs)
+        if m is None:
+            self.env = base
+            return False
+        self.env = m
+
+    def part_of(self, v):
+        x = self.fresh('part')
+        self.emit('Assign', x, v)
+        self.emit('Load', x, v)
+        return x
+
+    def bind_pattern(self, p, v):
+        """captures bind (parts of) the subject"""
+        if isinstance(p, ast.MatchValue):
+            self.ev(p.value)
+        elif isinstance(p, ast.MatchSingleton):
+            pass
+        elif isinstance(p, ast.MatchSequence):
+            for sub in p.patterns:
+                if isinstance(sub, ast.MatchStar):
+                    if sub.name:
+                        x = self.fresh('rest', 'list')
+                        self.emit('Store', x, self.item_of(v))
+                        self.env[sub.name] = x
+                else:
+                    self.bind_pattern(sub, self.item_of(v))
+        elif isinstance(p, ast.MatchMapping):
+            for k in p.keys:
+                self.ev(k)
+            for sub in p.patterns:
+                self.bind_pattern(sub, self.item_of(v))
+            if p.rest:
+                self.env[p.rest] = v
+        elif isinstance(p, ast.MatchClass):
+            for sub in list(p.patterns) + list(p.kwd_patterns):
+                self.bind_pattern(sub, self.part_of(v))
+        elif isinstance(p, ast.MatchAs):
+            if p.pattern is not None:
+                self.bind_pattern(p.pattern, v)
+            if p.name:
+                self.env[p.name] = v
+        elif isinstance(p, ast.MatchOr):
+            base = dict(self.env)
+            envs = []
+            for alt in p.patterns:
+                self.env = dict(base)
+                self.bind_pattern(alt, v)
+                envs.append(dict(self.env))
+            self.env = self.merge(envs)
+        else:
+            self.bad(p, "match pattern")
 
     def st_If(self, s):
         self.ev(s.test)
@@ -2070,35 +2287,64 @@ def translate_all(repo):
             ft = FT(prog, fi, slotinfo, columns).run()
             fts[fi.fid] = ft
             todo += ft.nested_infos
-        order, state = [], {}
+        # strongly connected components of the call graph, callees first (Tarjan)
+        index, low, onst, stack, sccs = {}, {}, set(), [], []
+        sys.setrecursionlimit(max(sys.getrecursionlimit(), 5000))
 
-        def visit(fid, stack):
-            if state.get(fid) == 2:
-                return
-            if state.get(fid) == 1:
-                raise Unsupported("recursion: " + ' -> '.join(stack + [fid]))
-            state[fid] = 1
-            for c in fts[fid].callees:
-                visit(c, stack + [fid])
-            state[fid] = 2
-            order.append(fid)
+        def strong(v):
+            index[v] = low[v] = len(index)
+            stack.append(v)
+            onst.add(v)
+            for w in fts[v].callees:
+                if w not in index:
+                    strong(w)
+                    low[v] = min(low[v], low[w])
+                elif w in onst:
+                    low[v] = min(low[v], index[w])
+            if low[v] == index[v]:
+                comp = []
+                while True:
+                    w = stack.pop()
+                    onst.discard(w)
+                    comp.append(w)
+                    if w == v:
+                        break
+                sccs.append(comp)
 
         for fid in fts:
-            visit(fid, [])
+            if fid not in index:
+                strong(fid)
+        order = [fid for comp in sccs for fid in comp]
         funcs = {}
         for fid in order:
             ft = fts[fid]
             funcs[fid] = dict(params=ft.f_params, owned=ft.f_owned, ownref=ft.f_ownref, grng=ft.groot,
-                              psite=ft.modroot, osite=ft.osite, rsite=ft.rsite, exact=ft.f_exact, formals=ft.f_formals, slots=ft.f_slots, body=ft.stmts,
+                              psite=ft.modroot, osite=ft.osite, rsite=ft.rsite, exact=ft.f_exact,
+                              formals=ft.f_formals, slots=ft.f_slots, body=ft.stmts,
                               ret=ft.ret, rreach=ft.rreach, names=ft.names, kind=ft.fi.kind,
                               cls=ft.fi.cls.cid if ft.fi.cls else None,
                               line=ft.fi.node.lineno, module=ft.fi.module)
         S, sols = {}, {}
-        for fid in order:
-            sm, sol = summary_of(S, funcs[fid])
-            if sm is not None:
-                S[fid] = sm
-                sols[fid] = sol
+        empty = dict(mut=[], ret=[], lnk=[], rng=False, drw=[], sw=[], sr=[])
+        for comp in sccs:
+            recursive = len(comp) > 1 or comp[0] in fts[comp[0]].callees
+            if recursive:                      # (mutual) recursion: least fixpoint of the summaries
+                for fid in comp:
+                    S[fid] = dict(empty)
+            for it in range(30 if recursive else 1):
+                changed = False
+                for fid in comp:
+                    sm, sol = summary_of(S, funcs[fid])
+                    if sm is not None:
+                        if S.get(fid) != sm:
+                            changed = True
+                        S[fid] = sm
+                        sols[fid] = sol
+                if not changed:
+                    break
+            else:
+                if recursive:
+                    raise Unsupported("summaries of the recursive functions " + ', '.join(comp) + " do not stabilise")
         # slot classification: private unless some method may make it hold / reference caller memory
         new = {}
         for fid in order:
@@ -2591,6 +2837,9 @@ def run_microtests():
         'scipy.spatial.transform.Rotation.concatenate': lambda: (([Rotation.from_rotvec(d()['v']), Rotation.from_rotvec(d()['v'])],), {}),
         'scipy.spatial.transform.Rotation.identity': lambda: ((), {}),
         'pandas.Index': lambda: ((d()['t'],), dict(name='time')),
+        'itertools.product': lambda: ((range(3),), dict(repeat=2)), 'itertools.chain': lambda: (([1, 2], [3]), {}),
+        'itertools.zip_longest': lambda: (([1, 2], [3]), {}), 'itertools.islice': lambda: (([1, 2, 3], 2), {}),
+        'itertools.repeat': lambda: ((1.5, 2), {}),
         'pandas.concat': lambda: (([d()['se'], d()['se']],), {}),
         'pandas.DataFrame': lambda: ((d()['A'],), dict(index=d()['t'], columns=['a', 'b', 'c'])),
         'pandas.Series': lambda: ((d()['v'],), dict(index=['a', 'b', 'c'])),
